@@ -263,12 +263,41 @@ fn overclaim_of(rng: &mut Rng, fl: Flavour, eff: &IntervalSet) -> Option<(Interv
     }
 }
 
+/// A set of `n` blocks (the library may switch algorithms with the length of
+/// a chain): short blocks and single elements with gaps of at least one
+/// element between them, somewhere in the number space or hugging its end.
+fn long_set(rng: &mut Rng, fl: Flavour, n: usize) -> IntervalSet {
+    let max = fl.max();
+    let unit: u128 = if fl == Flavour::V4 { 1u128 << 96 } else { 1 };
+    let room = (max / unit).saturating_sub(16 * n as u128 + 16);
+    let start = match rng.below(3) {
+        0 => 0,
+        1 => room,
+        _ => rng.next_u128() % (room + 1),
+    };
+    let mut v = Vec::with_capacity(n);
+    let mut pos = start;
+    for _ in 0..n {
+        let len = *rng.pick(&[1u128, 1, 2, 3, 4, 8]);
+        let gap = *rng.pick(&[1u128, 1, 2, 5, 7]);
+        let lo = pos * unit;
+        let hi = (pos + len - 1) * unit + (unit - 1);
+        v.push((lo, hi.min(max)));
+        pos += len + gap;
+    }
+    IntervalSet::from_ranges(&v)
+}
+
 fn gen_ta_claims(rng: &mut Rng) -> [Claim; 3] {
     let mut c: Vec<Claim> = FLS
         .iter()
-        .map(|fl| match rng.below(6) {
+        .map(|fl| match rng.below(7) {
             0 => Claim::Missing,
             1 => Claim::Blocks(IntervalSet::from_ranges(&[(0, fl.max())])),
+            2 if rng.bool() => {
+                let n = *rng.pick(&[15usize, 16, 17, 31, 32, 33, 48, 63, 64, 65, 127, 128, 129, 200, 255, 256, 257, 600]);
+                Claim::Blocks(long_set(rng, *fl, n))
+            }
             _ => {
                 let s = sequence(*fl, rng, 6);
                 let m = IntervalSet::from_ranges(&s.blocks);
@@ -2084,6 +2113,110 @@ fn derived_in_chain(ctx: &mut Ctx, w: &World, rng: &mut Rng, spec: &Spec, d: &[u
     check_derived(ctx, w, kind, &x, Some(&issuer.rc), Clock::At(now), if id_is_aki { "aki" } else { "ski" }, dv, facts, &det);
 }
 
+
+/// The entry points without `_at` read the clock themselves. Certificates
+/// whose validity ends (or starts) a few seconds from now are validated
+/// through them while the real clock crosses the edge. A call is judged only
+/// when the harness' own clock readings before and after the call lie on the
+/// same side of the edge (the library's reading is in between), so scheduling
+/// delays cost verdicts, never correctness. Between notAfter and the next
+/// whole second the certificate is expired: X.509 times have whole seconds,
+/// instants do not.
+fn wall_clock_edges(ctx: &mut Ctx, w: &World, kind: Kind, rng: &mut Rng) {
+    use std::time::{Duration, SystemTime, UNIX_EPOCH};
+    let now_ns = || SystemTime::now().duration_since(UNIX_EPOCH).map(|d| d.as_nanos() as i128).unwrap_or(0);
+    let t0 = (now_ns() / 1_000_000_000) as i64;
+    let edge = t0 + 3; // notAfter of A; B starts at edge + 1
+    let nkeys = w.pool.len();
+    let ta_key = rng.usize_below(nkeys);
+    let leaf_key = (ta_key + 1 + rng.usize_below(nkeys - 1)) % nkeys;
+    let full = |fl: Flavour| Claim::Blocks(IntervalSet::from_ranges(&[(0, fl.max())]));
+    let sub = |lo: u128, hi: u128| Claim::Blocks(IntervalSet::from_ranges(&[(lo, hi)]));
+    let ta = Spec {
+        kind: Kind::Ta, key: ta_key, issuer_key: ta_key, serial: 7, not_before: t0 - 86_400, not_after: t0 + 86_400,
+        overclaim: Overclaim::Refuse, claims: [full(Flavour::As), full(Flavour::V4), full(Flavour::V6)], aki: AkiChoice::Issuer,
+        issuer_name: None, subject_name: None, router_key: None,
+    };
+    let strict = rng.bool();
+    let ta_der = build(w, &ta);
+    let issuer_rc = match validate(ctx, w, Kind::Ta, &ta_der, None, strict, t0) {
+        Some(Outcome::Accepted(Some(rc))) => rc,
+        _ => {
+            ctx.obs("wall_clock_edges_abandoned", 1);
+            return;
+        }
+    };
+    // A: valid until `edge`; B: valid from `edge + 1`
+    let mk = |nb: i64, na: i64, serial: u64| -> Vec<u8> {
+        let spec = match kind {
+            Kind::Ta => Spec { not_before: nb, not_after: na, serial, ..ta.clone() },
+            _ => Spec {
+                kind, key: leaf_key, issuer_key: ta_key, serial, not_before: nb, not_after: na, overclaim: Overclaim::Refuse,
+                claims: if kind == Kind::Router { [sub(64496, 64496), Claim::Missing, Claim::Missing] } else { [sub(64496, 64511), sub(0x0A00_0000, 0x0AFF_FFFF), Claim::Missing] },
+                aki: AkiChoice::Issuer, issuer_name: Some(issuer_rc.subject().clone()), subject_name: None,
+                router_key: if kind == Kind::Router { Some(w.router_keys[0].clone()) } else { None },
+            },
+        };
+        build(w, &spec)
+    };
+    let a = mk(t0 - 3600, edge, 1001);
+    let b = mk(edge + 1, t0 + 3600, 1002);
+    let issuer = if kind == Kind::Ta { None } else { Some(&issuer_rc) };
+    let kname = format!("{:?}", kind).to_lowercase();
+    // (cert, lower bound incl. in ns, upper bound incl. in ns)
+    let certs: [(&str, &[u8], i128, i128); 2] = [
+        ("expiring", &a, (t0 as i128 - 3600) * 1_000_000_000, edge as i128 * 1_000_000_000),
+        ("starting", &b, (edge as i128 + 1) * 1_000_000_000, (t0 as i128 + 3600) * 1_000_000_000),
+    ];
+    // probe moments relative to `edge`, in ms
+    for at_ms in [-1500i64, -400, 120, 350, 600, 870, 1150, 1600] {
+        let target = edge as i128 * 1_000_000_000 + at_ms as i128 * 1_000_000;
+        let wait = target - now_ns();
+        if wait > 0 {
+            std::thread::sleep(Duration::from_nanos(wait as u64));
+        }
+        for (what, der_bytes, lo, hi) in certs.iter() {
+            let t1 = now_ns();
+            let res = entry_points(ctx, w, kind, der_bytes, issuer, strict, Clock::Wall);
+            let t2 = now_ns();
+            if t2 < t1 {
+                continue;
+            }
+            let inside = t1 >= *lo && t2 <= *hi;
+            let outside = t2 < *lo || t1 > *hi;
+            if !inside && !outside {
+                ctx.obs("wall_clock_probe_straddled_an_edge_no_verdict", res.len() as u64);
+                continue;
+            }
+            let sub_second = outside && (t1 > *hi && t2 < *hi + 1_000_000_000 || t2 < *lo && t1 > *lo - 1_000_000_000);
+            for (entry, r) in res {
+                ctx.eval();
+                ctx.sig(&format!("wall-clock edge | {} | {} | {} | {}{}", kname, entry, what, if inside { "inside" } else { "outside" }, if sub_second { " by less than a second" } else { "" }));
+                let detail = || json!({
+                    "kind": kname, "entry_point": entry, "certificate": what, "cert": hex(der_bytes), "strict": strict,
+                    "not_before_ns": lo.to_string(), "not_after_ns": hi.to_string(),
+                    "clock_before_call_ns": t1.to_string(), "clock_after_call_ns": t2.to_string(),
+                    "result": match &r { Ok(()) => "accepted".to_string(), Err(e) => format!("rejected: {}", e) },
+                });
+                match (&r, inside) {
+                    (Ok(()), false) => ctx.violation(
+                        &format!("C01:accepts:wall-clock-outside-validity:{}:{}{}", kname, entry, if sub_second { ":sub-second" } else { "" }),
+                        "an entry point that reads the clock itself accepted a certificate although the clock was outside its validity window before and after the call",
+                        detail(),
+                    ),
+                    (Err(_), true) if !entry.starts_with("decode") => ctx.violation(
+                        &format!("C01:rejects-conforming:wall-clock-inside-validity:{}:{}", kname, entry),
+                        "an entry point that reads the clock itself rejected a conforming certificate although the clock was inside its validity window before and after the call",
+                        detail(),
+                    ),
+                    _ => {}
+                }
+                ctx.obs(if inside { "wall_clock_probes_inside" } else if sub_second { "wall_clock_probes_outside_by_less_than_a_second" } else { "wall_clock_probes_outside" }, 1);
+            }
+        }
+    }
+}
+
 pub fn run(ctx: &mut Ctx) {
     if ctx.no_ffi() {
         ctx.notes.push("C01 needs signatures (aws-lc, FFI): not run under Miri".into());
@@ -2115,6 +2248,12 @@ pub fn run(ctx: &mut Ctx) {
         if wall {
             derivation_sweep(ctx, &w, &mut srng, sweeps, Clock::Wall, Slice { core_only: true, ..slice });
         }
+    }
+    // ---- the real clock crossing a validity edge (four shards, one kind each; ~5 s of waiting)
+    if ctx.stage == Stage::Native && ctx.shard < 4.min(ctx.nshards) {
+        let mut crng = ctx.rng("wall-clock-edges");
+        let kind = [Kind::Ca, Kind::Ee, Kind::Ta, Kind::Router][ctx.shard as usize % 4];
+        wall_clock_edges(ctx, &w, kind, &mut crng);
     }
     let chains = ctx.stage_budget((20_000, 600_000), 3_000, 0, 24);
     let mut rng = ctx.rng("chains");
